@@ -268,6 +268,12 @@ class RawV(Model):
         return RawV(self.r, self.dtype, self.shape)
 
     def astype(self, t, *a, **k):
+        tn = t.name if isinstance(t, DT) else getattr(t, "__name__", None) or str(t)
+        tn = {"float": "float64", "int": "int64"}.get(tn, tn)
+        if tn == self.dtype.name and k.get("copy") is False:
+            return self                     # numpy: nothing to change, no copy
+        if tn in ("float64", self.dtype.name) and not isinstance(self.r, tuple):
+            return RawV(self.r, tn, self.shape)          # an exact cast: the same numbers in a NEW buffer
         return RawV(("cast", self.r, repr(t)), t if isinstance(t, DT) else "float64", self.shape)
 
 
@@ -366,8 +372,9 @@ class UFunc(Model):
                 raise Raised("TypeError", None, "'out' must be a tuple of arrays")
             if bshape(rshape, tuple(out[0].shape)) != tuple(out[0].shape):
                 raise Raised("ValueError", None, "non-broadcastable output operand with shape %s doesn't match the broadcast shape %s" % (out[0].shape, rshape))
-            out[0].r = res          # numpy writes into the buffer it is given
-            out[0].dtype = DT(dtype)
+            out[0].r = res          # numpy writes into the buffer it is given (which keeps its own dtype)
+            if dtype == "bool" or out[0].dtype.kind not in ("f", "i", "u"):
+                out[0].dtype = DT(dtype)
             return out[0]
         return RawV(res, dtype, rshape)
 
@@ -476,9 +483,13 @@ def arr(tree, hk, sym, unit, dtype="float64", shape=(3,), contiguous=True):
     return ev.instantiate(ci, [], {"values": RawV(Poly.sym(sym), dtype, shape, contiguous) if isinstance(sym, str) else sym, "unit": unit}, None)
 
 
-def vec(tree, hk, tag, unit, n=3):
+def vec(tree, hk, tag, unit, n=3, dtypes=None):
     vi = tree.cls(VECTOR_Q)
-    comps = {c: arr(tree, hk, tag + c, unit) for c in "xyz"[:n]}
+    if dtypes:
+        # built from raw buffers and a unit (the loader's way): every component wraps the buffer it is given, whatever its dtype
+        raw = {c: RawV(Poly.sym(tag + c), dtypes.get(c, "float64")) for c in "xyz"[:n]}
+        return ModelEval(tree, tree.method(vi, "__init__"), {}, hk).instantiate(vi, [], dict(raw, unit=unit), None)
+    comps = {c: arr(tree, hk, tag + c, unit, dtype=(dtypes or {}).get(c, "float64")) for c in "xyz"[:n]}
     return ModelEval(tree, tree.method(vi, "__init__"), {}, hk).instantiate(vi, [], dict(comps), None)
 
 
@@ -518,11 +529,12 @@ def check_inplace_stack(run, tree):
                 run.unresolved(construct, fi.where(), "cannot fold: %s" % e)
     # Vector on the left
     for sym, dunder, ub, want in OPS:
-        for rk in ("Vector", "Array", "array-valued Quantity", "scalar Quantity"):
+        for rk in ("Vector", "Array", "array-valued Quantity", "scalar Quantity", "Array; v has components of different dtypes (float64, float32, float64)"):
             construct = "core/vector.py::Vector[v [m] %s %s [%s], twice]" % (sym, rk, ub)
             try:
                 hk = stack_hooks(tree)
-                v = vec(tree, hk, "V", "m")
+                v = vec(tree, hk, "V", "m", dtypes={"y": "float32"} if "dtypes" in rk else None)
+                rk = rk.split(";")[0]
                 cs = comps_of(tree, hk, v)
                 bufs = {c: cs[c]._attrs["_array"] for c in cs}
                 p0 = {c: phys(cs[c]) for c in cs}
@@ -1479,7 +1491,10 @@ def check_array_history_space(run, tree, level="quick", family="arith"):
         hk, objs, ref = fresh()
         problems = []
         for i, st in enumerate(steps):
-            run_step(hk, objs, ref, st, "step %d" % (i + 1), problems)
+            try:
+                run_step(hk, objs, ref, st, "step %d" % (i + 1), problems)
+            except ZeroDivisionError:
+                return []            # a division by an exact zero (after a -= a): numpy answers inf/nan, outside this algebra
             if problems:
                 break
         return problems
